@@ -27,4 +27,27 @@ PROPS = {
             "sim": REAL_COMMON,
         },
     },
+    "C18": {
+        "engine": "connsim",
+        "instrument": "internal/connlimiter=locks,cond",
+        "cfgs": ["", "multi"],
+        "quick": {"seconds": 25, "chunk": 4000, "runs": 300000},
+        "thorough": {"seconds": 600, "chunk": 20000},
+        "rule": ("one run = limiter with tape-chosen stop in 1..5 and resume in 0..stop over 1-3 simulated "
+                 "listeners; tasks: one accept loop per listener, a dialer (1-10 clients), 1-2 closers (close, "
+                 "double close, close of the same connection from two tasks), optionally a listener closer "
+                 "(close, double close); yields before every mutex acquisition and at every cond wait/signal "
+                 "inside connlimiter; non-trivial = the scheduler preempted a runnable task or a listener was "
+                 "closed; distinct = distinct hash of the decision sequence"),
+        "assumptions": [
+            "the reference hysteresis (count, accepting) is driven by events the harness observes in the same scheduler step in which the limiter changes its counter (there is no yield between the counter update and the observation)",
+            "pipeline limiting (second half of C18) is checked by the wire engine sub-batch, not here",
+            "bounded liveness is asserted only at quiescence after dialer, closers and listener closer have finished",
+        ],
+        "components": {
+            "real": ["internal/connlimiter (Limiter, limitListener, limitConn, counter)"],
+            "stub": ["net.Listener / net.Conn below the limiter (simulated)", "prometheus metrics (real registry, unobserved)"],
+            "sim": REAL_COMMON,
+        },
+    },
 }
